@@ -39,6 +39,8 @@ def parsePayload : List String → Option Val
   | ["bool", "false"] => some (.bool false)
   | ["str", t] => (strTok t).map .str
   | ["unit"] => some .unit
+  | ["marker"] => some (.unitStruct "Marker")
+  | ["arr0"] => some (.tuple .nil)           -- `[u8; 0]`: serde's impl is `serialize_tuple(0)?.end()` / `deserialize_tuple(0, ..)`
   | ["pair", n, t] => do
       let n ← n.toNat?; let t ← strTok t
       pure (.tuple (.cons (.u32 n) (.cons (.str t) .nil)))
@@ -81,6 +83,7 @@ def Val.beq : Val → Val → Bool
   | .str a, .str b => a == b
   | .none, .none => true
   | .unit, .unit => true
+  | .unitStruct a, .unitStruct b => a == b
   | .some a, .some b => Val.beq a b
   | .tuple a, .tuple b => Vals.beq a b
   | .seq a, .seq b => Vals.beq a b
